@@ -1,58 +1,37 @@
 /-
   audriver — line protocol: one request per line on stdin → one canonical answer per line on stdout.
   Runs the very definitions of `AuModel` that the theorems in `AuProofs` are about.
+  Each property's commands live in Driver/Cmd/<ID>.lean (`dispatch<ID> : List String → Option String`).
 -/
-import AuModel
-open Au
+import Driver.Util
+import Driver.Cmd.IntConv
+import Driver.Cmd.C01
+import Driver.Cmd.C02
+import Driver.Cmd.C05
+import Driver.Cmd.C06
+import Driver.Cmd.C07
+import Driver.Cmd.C08
+import Driver.Cmd.C09
+import Driver.Cmd.C10
+import Driver.Cmd.C11
+import Driver.Cmd.C12
+import Driver.Cmd.C13
+import Driver.Cmd.C14
+import Driver.Cmd.C15
+import Driver.Cmd.C16
+import Driver.Cmd.C17
+import Driver.Cmd.C18
+import Driver.Cmd.C19
+import Driver.Cmd.C20
 
-def b01 (b : Bool) : String := if b then "1" else "0"
-
-def evalStr : Eval Int → String
-  | .ok v => toString v
-  | .ub _ => "ub"
-
-def parseNat? (s : String) : Option Nat := s.toNat?
-def parseInt? (s : String) : Option Int := s.toInt?
-
-def cmdCert (args : List String) : String :=
-  match args with
-  | [ts, ns, ds] =>
-    match IntTy.ofName? ts, parseNat? ns, parseNat? ds with
-    | some t, some N, some D =>
-      if N = 0 || D = 0 then "bad-op" else
-      let (lo, hi) := okInterval t N D
-      let tk := match truncKind t N D with
-        | .never => "never"
-        | .modulus d => s!"mod:{d}"
-        | .nonzero => "nonzero"
-      let cat := match categorize N D with
-        | .intMul => "intMul" | .intDiv => "intDiv" | .rational => "rational"
-      s!"compiles={b01 (compiles t N D)} cat={cat} lo={lo} hi={hi} trunc={tk}"
-    | _, _, _ => "bad-op"
-  | _ => "bad-op"
-
-def cmdApplyMag (args : List String) : String :=
-  match args with
-  | [ts, ns, ds, xs] =>
-    match IntTy.ofName? ts, parseNat? ns, parseNat? ds, parseInt? xs with
-    | some t, some N, some D, some x =>
-      if N = 0 || D = 0 || !(decide (t.inRange x)) then "bad-op" else
-      let o := wouldOverflow t N D x
-      let tr := wouldTruncate t N D x
-      let l := isLossy t N D x
-      if compiles t N D then
-        let r := applyMag t N D x
-        s!"ovf={b01 o} trunc={b01 tr} lossy={b01 l} val={evalStr r.val} wrapped={b01 r.wrapped} narrowed={b01 r.narrowed}"
-      else
-        s!"ovf={b01 o} trunc={b01 tr} lossy={b01 l} val=- wrapped=0 narrowed=0"
-    | _, _, _, _ => "bad-op"
-  | _ => "bad-op"
+def dispatchers : List (List String → Option String) :=
+  [dispatchIntConv, dispatchC01, dispatchC02, dispatchC05, dispatchC06, dispatchC07, dispatchC08, dispatchC09, dispatchC10, dispatchC11, dispatchC12, dispatchC13, dispatchC14, dispatchC15, dispatchC16, dispatchC17, dispatchC18, dispatchC19, dispatchC20]
 
 def dispatch (line : String) : String :=
-  match (line.trimAscii.toString.splitOn " ").filter (· ≠ "") with
-  | "cert" :: args => cmdCert args
-  | "applymag" :: args => cmdApplyMag args
-  | _ => "bad-op"
+  let toks := (line.trimAscii.toString.splitOn " ").filter (· ≠ "")
+  match dispatchers.findSome? (fun d => d toks) with
+  | some r => r
+  | none => "bad-op"
 
 partial def loop (h : IO.FS.Stream) (out : IO.FS.Stream) : IO Unit := do
   let line ← h.getLine
